@@ -216,7 +216,7 @@ func checkC01(c caseC01) (viol string, nontrivial bool, feats []string) {
 		feats = append(feats, "outcome:ok")
 	}
 	a := interpret(c.Src)
-	if c.NearLimit && a.Err != nil && !isRuntimeErr(a.Err) && strings.Contains(a.Log, "jump too long") {
+	if c.NearLimit && a.Err != nil && !isRuntimeErr(a.Err) {
 		return "", false, append(feats, "skipped:jump-limit-exceeded")
 	}
 	return compareOutcome(o, a), nontrivial, feats
